@@ -11,6 +11,9 @@
                     new one; pop_back/erase destroy exactly one element per decrement on every path;
                     resize destroys (shrinking) or constructs (growing) in a loop before setSize;
                     destroyAll destroys all elements and frees the heap block iff one is owned.
+  C38.growth        every growToHeap(newCap) reached from emplace_back on a full vector asks for more
+                    than the capacity it replaces, evaluated for each instantiated N (N = 1 included)
+                    and a family of heap capacities.
 """
 import re
 from lib import dataflow
@@ -95,3 +98,44 @@ def run(R):
             ok = bool(loops) and bool(frees) and all(any((not pol) and isinstance(strip_casts(at), dict) and strip_casts(at).get("name") == "isInline" for at, pol, b in fn.guard_atoms(p)) for p, _ in frees)
             R.ob("C38.lifetime", fn, fn.loc, ok, "destroys all elements; frees the heap block iff not inline" if ok else "destroyAll does not destroy all / frees inline storage", sitekey="destroyAll", why="each element is destroyed exactly once")
     R.need("C38.lifetime", n2, 4, "SmallVector lifetime sites")
+    growth_rule(R)
+
+
+def growth_rule(R):
+    """C38.growth: a full vector must grow. Every growToHeap(newCap) in emplace_back, evaluated for the
+    instantiation's N and for a family of current heap capacities, asks for more than the capacity it
+    replaces (1.5x with truncation stalls at capacity 1: the next element is written past the block)."""
+    from lib.rules import eval_int
+    F = R.F
+    n = 0
+    seenN = set()
+    for fn in F.functions(qname=CLS + "::emplace_back"):
+        m = re.search(r"SmallVector<.*,\s*(\d+)\s*>$", fn.raw.get("clsinst", "") or "")
+        N = int(m.group(1)) if m else None
+        if N is None:
+            continue
+        seenN.add(N)
+        for p, e in fn.events():
+            if not is_call(e, CLS + "::growToHeap"):
+                continue
+            n += 1
+            arg = e["args"][0]
+            uses_cap = any(isinstance(x, dict) and x.get("k") == "member" and x.get("fname") == "capacity" for x in subexprs(arg))
+            bad, unknown = [], False
+            # a heap block always holds more than N elements (it is created by growing past N, or by
+            # reserve(n > capacity)): capacities <= N are not reachable in the heap branch
+            for cur in (sorted({c for c in (N + 1, N + 2, 2 * N, 2 * N + 1, 3, 5, 8, 9, 16, 1000) if c > N}) if uses_cap else [N]):
+                v = eval_int(fn, arg, lambda x: cur if (x.get("k") == "member" and x.get("fname") == "capacity") else None)
+                if v is None:
+                    unknown = True
+                    break
+                if v <= cur:
+                    bad.append((cur, v))
+            if unknown:
+                R.inconclusive("C38.growth", "cannot evaluate the new capacity %s in %s" % (expr_str(arg), fn.display))
+                continue
+            R.ob("C38.growth", fn, e, not bad, "growToHeap(%s) grows a full vector (N=%d)" % (expr_str(arg), N) if not bad else
+                 "growToHeap(%s): a full vector of capacity %d is 'grown' to %d (N=%d): the next element is constructed past the end of the block" % (expr_str(arg), bad[0][0], bad[0][1], N),
+                 sitekey="emplace_back:%s" % ("heap" if uses_cap else "inline"), why="emplace_back on a full vector writes element size() of a block that must hold more than size() elements")
+    R.need("C38.growth", n, 2, "growToHeap calls in emplace_back")
+    R.need("C38.growth", 1 if 1 in seenN else 0, 1, "an instantiation with inline capacity N = 1 (the smallest legal one)")
